@@ -513,10 +513,10 @@ def check(ctx):
             if fn.endswith(".script"):
                 lines = [l for l in open(os.path.join(cdir, fn)).read().split("\n") if l.strip() and not l.startswith("#")]
                 cases.append(dict(tok=lines, tags=["corpus:" + fn], kind="model"))
-    nmut = 700 if ctx.quick() else 12000
-    nspec = 500 if ctx.quick() else 8000
-    nhs = 250 if ctx.quick() else 4000
-    ngar = 150 if ctx.quick() else 2500
+    nmut = 700 if ctx.quick() else 8000
+    nspec = 500 if ctx.quick() else 6000
+    nhs = 250 if ctx.quick() else 3000
+    ngar = 150 if ctx.quick() else 2000
     base = [gen_mutated(ctx, i) for i in range(nmut)]
     C07.encode(mexe, base)
     for c in base:
